@@ -351,19 +351,21 @@ class TLSRecordLayer(object):
                             "extension"):
                         yield result
 
+                # only servers send CertificateRequest, and they never receive
+                # session tickets
                 if cert_req_with_comp_cert_ext:
-                    allowedHsTypes = (HandshakeType.new_session_ticket,
-                                      HandshakeType.key_update,
+                    allowedHsTypes = (HandshakeType.key_update,
                                       HandshakeType.certificate,
                                       HandshakeType.compressed_certificate)
                 else:
-                    allowedHsTypes = (HandshakeType.new_session_ticket,
-                                      HandshakeType.key_update,
+                    allowedHsTypes = (HandshakeType.key_update,
                                       HandshakeType.certificate)
                 constructor_type = CertificateType.x509
-            else:
+            elif self._client:
                 allowedHsTypes = (HandshakeType.new_session_ticket,
                                   HandshakeType.key_update)
+            else:
+                allowedHsTypes = (HandshakeType.key_update,)
         else:
             allowedTypes = ContentType.application_data
             allowedHsTypes = None
